@@ -50,6 +50,38 @@ func runC09(c *eng.Ctx) {
 
 	// ---- 1. GOC: indexKVStore.createValue -------------------------------------------------------------
 	c.Rule("GOC", kvsT+".createValue", func() { gocCreateValue(c) })
+	// ---- 1b. a name kept in a dictionary owns its memory ---------------------------------------------------------------------------
+	c.Rule("PROV", "index{keys stored in the in-memory dictionaries own their memory}", func() {
+		n := 0
+		for _, prefix := range []string{"index.", "index/model.", "tsdb/memdb."} {
+			for _, fn := range p.FuncsWithPrefix(prefix) {
+				for _, b := range fn.Blocks {
+					for _, in := range b.Instrs {
+						mu, ok := in.(*ssa.MapUpdate)
+						if !ok {
+							continue
+						}
+						if bt, ok := mu.Key.Type().Underlying().(*types.Basic); !ok || bt.Kind() != types.String {
+							continue
+						}
+						n++
+						alias := eng.DependsOn(mu.Key, func(x ssa.Value) bool {
+							cl, ok := x.(*ssa.Call)
+							if !ok || cl.Common().StaticCallee() == nil {
+								return false
+							}
+							g := cl.Common().StaticCallee()
+							return g.Name() == "ByteSlice2String" || g.Pkg != nil && g.Pkg.Pkg.Path() == "unsafe"
+						})
+						c.Check(!alias, fmt.Sprintf("key-copied@%s", p.FuncKey(fn)), in, fn,
+							"a string stored as a map key is a copy (string(b)), not a view of the caller's byte slice: callers hand in slices of a reused decompression buffer, and a key that changes under the map gives a later name the id of an earlier one",
+							"the key is "+p.Desc(mu.Key)+", an unsafe view of a byte slice")
+					}
+				}
+			}
+		}
+		c.Check(n >= 1, "string-keyed-inserts-found", nil, nil, "the dictionaries insert string keys", fmt.Sprintf("%d", n))
+	})
 
 	// ---- 5. UNION: lookup consults memory and persisted store before creating ---------------------------
 	c.Rule("UNION", kvsT+".getOrCreateValue", func() {
